@@ -608,7 +608,7 @@ def _preconditions(chk, facts, pm, failing):
                 chk.ob("R-C02-3", key, True, f"{f['name']}: Block statements cannot be empty ({why})")
             else:
                 chk.ob("R-C02-3", key, False, f"{f['name']} builds a Core::Block from `{src(e)[:60]}` without establishing that it is non-empty", facts.loc_of(f))
-        chk.floor("R-C02-3", n, 6, "Core::Block construction sites")
+        chk.floor("R-C02-3", n, 4, "Core::Block construction sites")
     except AnchorError as e:
         chk.anchor_fail("R-C02-3", e)
     # ---- TryExcept.except / Match.cases / Import.import non-empty; FunArg; ENum ----
